@@ -90,6 +90,11 @@ def worker(args, scratch):
                         upstream.setdefault(int(vid[len(tag) + 1:].split("-")[0]), []).append(u)
                 expected_denials = collections.Counter()
                 ambiguous_keys = set()
+                if any(common.is_timeout(x) for x in results):
+                    # a client gave up after 60 s (machine overloaded): neither the statuses nor the counts of this replay can be judged
+                    if not res.get("inconclusive"):
+                        res.setdefault("inconclusive", []).append("client socket watchdog (60 s) fired while waiting for the proxy; not a verdict")
+                    continue
                 for i, (ci, method, url, hostfault) in enumerate(seq):
                     res["evaluations"] += 1
                     who = callers[ci]
